@@ -7,6 +7,24 @@ ROOT = os.path.dirname(os.path.dirname(os.path.abspath(__file__)))
 ALL = [f"C{i:02d}" for i in range(1, 21)]
 
 CLAIMED = {
+    "C10": dict(
+        text="Bounded symbolic execution (CrossHair/z3) of the real dispatcher / greeting / user / pass_ / MemoryUserManager / AvailableConnections with SYMBOLIC counter values "
+             "(server-wide and two users; the holdings of all other sessions are symbolic integers, so the step is inductive in them): counters between commands equal start minus "
+             "this session's holdings, 421/530 exactly at a zero counter and not counted, and every counter is back at its start value after QUIT, EOF, cancellation at a symbolic "
+             "loop iteration, idle timeout or a raising handler, with no accounting exception logged.",
+        note="Trusted: CrossHair/z3, scripted control channel, VLoop. Outside: custom user managers, more than two user accounts, more than two concurrent real sessions.",
+        technique="bounded symbolic execution of the real Python code (CrossHair 0.0.110 + z3): inductive session harness over symbolic counters",
+        design_ref="DESIGN.md section 3 C10",
+    ),
+    "C11": dict(
+        text="Bounded symbolic execution (CrossHair/z3) of the real PASV/EPSV handlers, _start_passive_server and the dispatcher's finally block against a listener stub whose "
+             "per-attempt outcome and errno are symbolic, from a symbolic pool (ports held elsewhere, retry priorities), with the session ending by QUIT, EOF or cancellation at a "
+             "symbolic loop iteration: pool + live listener == configured ports between events and after the session; no listener or data connection left; exhaustion => 421.",
+        note="Trusted: CrossHair/z3; the listener stub yields before and after binding like loop.create_server and, like it, leaks the listener if cancelled after binding. "
+             "Outside: more than 3 ports / 4 attempts, real sockets.",
+        technique="bounded symbolic execution of the real Python code (CrossHair 0.0.110 + z3): symbolic fault and cancellation points",
+        design_ref="DESIGN.md section 3 C11",
+    ),
     "C04": dict(
         text="Bounded symbolic execution (CrossHair/z3) of the real Permission.is_parent / User.get_permissions on symbolic permission paths and targets against an "
              "independent longest-prefix rule, and of the 13 permission-checked handlers through the real dispatcher with six symbolic permission bits and alias "
